@@ -370,6 +370,11 @@ class MetadorMeta:
             return None  # not found
 
         # get class of schema and parse object
+        if schema_ver is None:
+            # no release requested: view the object as the release of the requested
+            # schema it was stored as (its own, or the one in its parent path)
+            path = self._mc.metador.schemas.parent_path(compat_schema)
+            schema_ver = next(r.version for r in reversed(path) if r.name == schema_name)
         # (reading through an auxiliary parent schema is fine, only attaching is not)
         schema_class = schemas._get_unsafe(schema_name, schema_ver)
         if obj := self._get_raw(compat_schema.name, compat_schema.version):
